@@ -473,8 +473,8 @@ void rational_interval_mul(lp_rational_interval_t* P, const lp_rational_interval
         rational_construct(&result.a);
         rational_construct(&result.b);
         result.is_point = 0;
-        result.a_open = I2->a_open;
-        result.b_open = I2->b_open;
+        result.a_open = I2->b_open;
+        result.b_open = I2->a_open;
         rational_mul(&result.b, &I1->a, &I2->a);
         rational_mul(&result.a, &I1->a, &I2->b);
         lp_rational_interval_swap(&result, P);
